@@ -27,6 +27,38 @@ type fn struct {
 	DecisionIfs [][2]int `json:"decision_ifs"`
 }
 
+// alwaysExits reports whether a statement list unconditionally leaves the enclosing function or
+// loop iteration: it ends in return / continue / break / goto / panic(...), or in an if-else whose
+// branches all do.
+func alwaysExits(list []ast.Stmt) bool {
+	if len(list) == 0 {
+		return false
+	}
+	switch s := list[len(list)-1].(type) {
+	case *ast.ReturnStmt, *ast.BranchStmt:
+		return true
+	case *ast.BlockStmt:
+		return alwaysExits(s.List)
+	case *ast.ExprStmt:
+		if c, ok := s.X.(*ast.CallExpr); ok {
+			if id, ok := c.Fun.(*ast.Ident); ok && id.Name == "panic" {
+				return true
+			}
+		}
+	case *ast.IfStmt:
+		if s.Else == nil || !alwaysExits(s.Body.List) {
+			return false
+		}
+		switch e := s.Else.(type) {
+		case *ast.BlockStmt:
+			return alwaysExits(e.List)
+		case *ast.IfStmt:
+			return alwaysExits([]ast.Stmt{e})
+		}
+	}
+	return false
+}
+
 func main() {
 	var out []fn
 	fset := token.NewFileSet()
@@ -63,15 +95,8 @@ func main() {
 				case *ast.RangeStmt:
 					x.Loops = append(x.Loops, [2]int{fset.Position(s.Pos()).Line, fset.Position(s.End()).Line})
 				case *ast.IfStmt:
-					if n := len(s.Body.List); n > 0 {
-						exit := false
-						switch s.Body.List[n-1].(type) {
-						case *ast.ReturnStmt, *ast.BranchStmt:
-							exit = true
-						}
-						if exit {
-							x.DecisionIfs = append(x.DecisionIfs, [2]int{fset.Position(s.Cond.Pos()).Line, fset.Position(s.Cond.End()).Line})
-						}
+					if alwaysExits(s.Body.List) {
+						x.DecisionIfs = append(x.DecisionIfs, [2]int{fset.Position(s.Cond.Pos()).Line, fset.Position(s.Cond.End()).Line})
 					}
 				}
 				return true
